@@ -7,7 +7,7 @@ From Verif Require Import Iso8601.Ext Generated.Iso8601Gen Iso8601.Spec.
 From Verif Require Import Generated.AsmAsciiGen Ascii.AsmTotal Generated.AsciiGen Ascii.Spec.
 From Verif Require Import Proto.Ext Generated.ProtoGen Proto.Model Proto.PrimSpec Proto.Spec.
 From Verif Require Import Json.Ext Generated.JsonParseGen Json.Grammar Json.Spec.
-From Verif Require Import Thrift.Model Thrift.Spec.
+From Verif Require Import Thrift.Model Thrift.Spec Thrift.SpecC.
 From Verif Require Import Json.StreamModel Json.StateSpec.
 From Verif Require Import Proto.RewriteModel Proto.ScanModel.
 Extraction Language OCaml.
@@ -21,4 +21,5 @@ Extraction "model.ml"
   json_Valid g_valid std_valid json_escapeIndex first_index needs_escape_json json_decoder_parseValue json_internalParseFlags
   TMarshal TUnmarshal zero_of enc dec ty_ok tval_wf tnorm spec_enc pkg_dev no_dev
   d_init decode_all tokenize spec_tokens frame
-  Proto.ScanModel.Scan.
+  Proto.ScanModel.Scan
+  Thrift.SpecC.TDecode.
